@@ -1184,14 +1184,26 @@ impl<T: PPGEvaluatorStrategy> PPGEvaluator<T> {
     fn process_signals(&mut self, depth: u32) -> Result<(), PPGEvaluatorError> {
         debug!("");
         debug!("Process signals, depth {}", depth);
-        let res = self.inner_process_signals(depth);
+        // one wave of signals per round. This used to recurse once per wave,
+        // which limited the length of dependency chains by the stack depth.
+        let mut depth = depth;
+        let res = loop {
+            if let Err(e) = self.inner_process_signals(depth) {
+                break Err(e);
+            }
+            if self.signals.is_empty() {
+                break Ok(());
+            }
+            depth += 1;
+        };
         debug!("Leaving process signals, {}", depth);
         res
     }
 
     fn inner_process_signals(&mut self, depth: u32) -> Result<(), PPGEvaluatorError> {
-        if depth > 1500 {
-            return Err(PPGEvaluatorError::InternalError("Depth ConsiderJob loop. Either pathological input, or bug. Aborting to avoid stack overflow".to_string()));
+        // a wave per job is legitimate (long chains); much more than that is a loop.
+        if depth as usize > 1500 + 20 * self.jobs.len() {
+            return Err(PPGEvaluatorError::InternalError("Depth ConsiderJob loop. Either pathological input, or bug. Aborting to avoid looping forever".to_string()));
         }
         let mut new_signals = Vec::new();
         let mut ignore_consider_signals = HashSet::new();
@@ -1613,9 +1625,6 @@ impl<T: PPGEvaluatorStrategy> PPGEvaluator<T> {
                 self.signals.push_back(s);
             }
             //self.signals.extend(new_signals.drain(..));
-        }
-        if !self.signals.is_empty() {
-            self.process_signals(depth + 1)?;
         }
         Ok(())
     }
